@@ -235,16 +235,16 @@ def oracle(ctx, c, r):
     return bad
 
 
-def table_obligation(ctx, table, consts):
+def table_obligation(ctx, table, consts, props="C04.Props", inst="C04_segmentation_invariance reveal mark hs dumped"):
     """prefix_table_wf re-checked by the kernel on the table dumped from the running code"""
-    txt = ("From CJ Require Import Common.Base C04.Model C04.Props.\n"
+    txt = ("From CJ Require Import Common.Base C04.Model %s.\n" % props +
            "Definition dumped : list pfx :=\n %s.\n"
            "Lemma dumped_table_wf : prefix_table_wfb dumped = true.\nProof. vm_compute. reflexivity. Qed.\n"
            "Lemma dumped_consts : (obfs4_min_handshake, obfs4_mark_start, N.of_nat obfs4_max_handshake, obfs4_mark_len, obfs4_mac_len) = "
            "(%d, %d, %d%%N, %d, %d)%%nat.\nProof. vm_compute. reflexivity. Qed.\n"
-           "Definition dumped_segmentation := fun reveal mark hs => C04_segmentation_invariance reveal mark hs dumped.\n"
+           "Definition dumped_instance := fun reveal mark hs => %s.\n"
            "Print Assumptions dumped_table_wf.\n"
-           % (table_term(table), consts["min_handshake"], consts["mark_start"], consts["max_handshake"], consts["mark_len"], consts["mac_len"]))
+           % (table_term(table), consts["min_handshake"], consts["mark_start"], consts["max_handshake"], consts["mark_len"], consts["mac_len"], inst))
     rc, out = ctx.coq_eval("table_%s" % ctx.pid, txt)
     ctx.cov["obligations"] += 1
     ctx.cov["theorems"].append("dumped_table_wf (prefix_table_wf on the table of the running code)")
@@ -254,6 +254,19 @@ def table_obligation(ctx, table, consts):
     ctx.broken("proof-obligation", "prefix_table_wf / transport constants no longer hold for the values dumped from the running code: "
                + " ".join(out.split())[-400:], {"table": table, "obfs4": consts})
     return False
+
+
+def coq_mismatches_retry(ctx, tag, hdr, terms, chk, shard, targets):
+    """ctx.coq_mismatches, retried once after a rebuild: C03 and C04 share coq/C04, and a clean rebuild
+    by the other check (thorough tier) can remove a .vo while the generated case files are compiled"""
+    n = len(ctx.brokens)
+    mm = ctx.coq_mismatches(tag, hdr, terms, chk, shard=shard)
+    if mm is None:
+        del ctx.brokens[n:]
+        time.sleep(5)
+        ctx.coq_make(targets)
+        mm = ctx.coq_mismatches(tag + "r", hdr, terms, chk, shard=shard)
+    return mm
 
 
 def run_go(ctx, cases, test="^TestVerifC04$", files=None, timeout=1500):
@@ -281,7 +294,8 @@ def run(ctx):
 
     def lap(what):
         print("[C04 %5.1fs] %s" % (time.time() - t0, what), file=sys.stderr)
-    ctx.coq_props()
+    # one build under the tree lock: theorems, the evaluator used by the correspondence, the examples
+    ctx.coq_props(props_files=["C04/Props.v", "C04/Run.v", "C04/Examples.v"])
     lap("coq props")
     rc, out, res = run_go(ctx, [])
     lap("go table dump")
@@ -331,7 +345,7 @@ def run(ctx):
     if not ctx.known and not os.environ.get("VERIF_C04_ONLY"):
         ctx.require_kinds(kinds)
     lap("oracle + emit")
-    mm = ctx.coq_mismatches("conn", header(table), terms, "chk'", shard=max(150, len(terms) // 16 + 1), need_vo=["C04/Run.vo"])
+    mm = coq_mismatches_retry(ctx, "conn", header(table), terms, "chk'", max(150, len(terms) // 16 + 1), ["C04/Run.vo"])
     lap("coq evaluation of %d cases" % len(terms))
     if mm:
         ctx.cov["mismatches"] += len(mm)
